@@ -2,6 +2,7 @@ import LyModel.Val.DateTime
 import LyModel.Val.LemmasDt
 import LyModel.Val.LemmasDtCal
 import LyModel.Val.LemmasDtCanon
+import LyModel.Val.LemmasDtIdem
 /-!
 # C03, `ietf-yang-types:date-and-time` — property theorems about `lean/LyModel/Val/DateTime.lean`
 
@@ -213,6 +214,21 @@ theorem dt_canon_idempotent_fails (c : ZoneCfg) : ¬ ∀ s v, storeWith c H s = 
   obtain ⟨w, hw⟩ := h wLeap9999 ⟨253402300800, none, false⟩ (st_leap9999 c)
   rw [st_year10000 c] at hw
   cases hw
+
+/-- the part that holds (every variant of the zone code): the canonical form of an accepted value whose UTC year has four digits is
+    accepted and stores the same value — instant, fraction digits and unknown-zone flag; so it is its own canonical form -/
+theorem dt_canon_idempotent_partial (c : ZoneCfg) (s : Bytes) (v : DtVal) (h : storeWith c H s = .ok v) (hy : InYearRange v) :
+    storeWith c H (canon v) = .ok v :=
+  store_canon c v hy (store_frac_wf h)
+
+/-- the same for a value that was not stored from text (LYB): any instant with a four-digit UTC year and a well-formed fraction -/
+theorem dt_canon_restorable (c : ZoneCfg) (v : DtVal) (hy : InYearRange v) (hf : ∀ g, v.frac = some g → g ≠ [] ∧ g.all Val.isDigit = true) :
+    storeWith c H (canon v) = .ok v :=
+  store_canon c v hy hf
+
+/-- non-vacuity: 2020-01-01T00:00:00.5Z is stored, its year is in range, its canonical form `2020-01-01T00:00:00.5+00:00` differs from it -/
+example : store H wFrac5 = .ok ⟨1577836800, some [53], false⟩ ∧ InYearRange ⟨1577836800, some [53], false⟩ ∧
+    canon ⟨1577836800, some [53], false⟩ ≠ wFrac5 := by decide
 
 /-! ## equality -/
 
